@@ -100,8 +100,9 @@ def gen_request(rng, w, max_body=300, force_version=None):
             w.add(rng.choice(NAMES))
             w.add(b":")
             w.add(rng.choice([b" ", b"", b"  "]))
-            w.add(rand_value(rng))
-            if rng.random() < 0.08:                  # obs-fold
+            fold = rng.random() < 0.08
+            w.add(rand_value(rng) or (b"y" if fold else b""))   # (an empty first line of a folded field is C06's F31)
+            if fold:                                 # obs-fold
                 w.eol(rng)
                 w.add(rng.choice([b" ", b"\t", b"  "]), hot=True)
                 w.add(rand_value(rng) or b"z")
